@@ -9,8 +9,10 @@ def run(tier, work):
     t0 = time.time()
     thorough = tier == "thorough"
     if "--replay" in sys.argv:
-        res = storelib.validate(work, os.path.abspath(sys.argv[sys.argv.index("--replay") + 1]), "replay",
-                                module="ReadBufferTrace", cfg="ReadBufferTrace.cfg")
+        path = os.path.abspath(sys.argv[sys.argv.index("--replay") + 1])
+        if vlib.read_ndjson_head(path, 1)[0].get("mode") == "poolread":
+            return storelib.replay_file("C08", path, work)
+        res = storelib.validate(work, path, "replay", module="ReadBufferTrace", cfg="ReadBufferTrace.cfg")
         for x in res["viol"]:
             print("VIOLATION property=C08 replay=%s\n  detail: %s at line %s" % (sys.argv[-1], x[3], x[2]))
         return 1 if res["viol"] else 0
@@ -22,11 +24,16 @@ def run(tier, work):
     tf = os.path.join(out, "buffer.ndjson")
     res = storelib.validate(work, tf, "buf", module="ReadBufferTrace", cfg="ReadBufferTrace.cfg")
     storelib.report(v, work, "C08", tf, res, lambda k, t, l: KF.get(k))
+    # cache level, entry pool on: a buffered hit whose entry is recycled before the stripe is drained (StoreTrace)
+    out2 = storelib.run_driver(work, "TestVerif_StorePoolReads", "poolreads", env={"VERIF_N": 60 if thorough else 10})
+    tf2 = os.path.join(out2, "store_poolreads.ndjson")
+    res2 = storelib.validate(work, tf2, "poolreads")
+    storelib.report(v, work, "C08", tf2, res2)
     cov = {"states": mc.distinct, "transitions": mc.generated, "traces_validated_against_impl": res["traces"],
            "evaluations": res["traces"], "distinct_nontrivial": n,
            "rule": "one evaluation = one schedule of atomic steps of Buffer.Add/Free (a random walk of ReadBuffer.tla with the real capacity 16, 3 readers x 14 adds) executed on the real buffer by the deterministic scheduler, or one free-running concurrent burst on one stripe; each followed by the progress probe",
            "behaviours_replayed": n, "atomic_steps_compared_with_spec": res["steps"], "segments_leaving_the_spec": res["div"],
-           "events_validated": res["lines"], "exhaustive": True,
+           "events_validated": res["lines"] + res2["lines"], "pool_recycling_histories": res2["traces"], "exhaustive": True,
            "model_checking_runs": [{"cfg": "ReadBufferMC_fixed*.cfg", "states": mc.distinct, "transitions": mc.generated, "wall_s": round(mc.wall, 1)}],
            "samples": [{"schedule_from_TLC": vlib.read_ndjson_head(os.path.join(simdir, sorted(os.listdir(simdir))[0]), 12)},
                        {"recorded_trace_excerpt": vlib.read_ndjson_head(tf, 10)}],
@@ -37,6 +44,7 @@ def run(tier, work):
     vlib.write_evidence("C08", tier, "model_checking", cov,
                         ["atomic-operation grain through verif yield hooks placed before each atomic load/CAS/store of Buffer.Add and Free",
                          "exhaustive for Cap 2 (3 thorough) with 2-3 readers; the real capacity is covered by replayed random walks and concurrent bursts",
+                         "cache level (entry pool on): sequential histories in which a buffered hit's entry object is evicted and recycled for another key before the stripe is drained; the event applied by drainRead must belong to the key the entry holds",
                          "the lossy buffer may drop events: only invention, duplication, wedging and lack of progress are violations"],
                         time.time() - t0, len(v.violations))
     return rc
